@@ -137,6 +137,7 @@ func c14Scenario(c *fw.Ctx, s int) {
 		qos        int
 		localFails bool
 		replyLost  int // node whose reply to the forwarding call is lost once (-1: none)
+		remoteFail int // reachable remote destination whose own log rejects the write (-1: none)
 	}
 	sent := []*sentMsg{}
 	seqNo := 0
@@ -184,7 +185,7 @@ func c14Scenario(c *fw.Ctx, s int) {
 			}
 			// every subset of the other nodes unreachable
 			for mask := 0; mask < 1<<len(others); mask++ {
-				m := &sentMsg{topic: topic, pub: pi, unreach: map[int]bool{}, dests: map[int]bool{}, replyLost: -1}
+				m := &sentMsg{topic: topic, pub: pi, unreach: map[int]bool{}, dests: map[int]bool{}, replyLost: -1, remoteFail: -1}
 				for b, o := range others {
 					if mask&(1<<b) != 0 {
 						m.unreach[o] = true
@@ -225,6 +226,19 @@ func c14Scenario(c *fw.Ctx, s int) {
 							m.replyLost = o
 							cl.LoseReplies(uint64(o+1), 1)
 							c.Observe("publishes_with_lost_reply", 1)
+							break
+						}
+					}
+				}
+				// in a sixth of the cases a reachable remote destination cannot append to its own log: it answers
+				// with an error, the publisher is not acknowledged, the other destinations are served
+				if m.replyLost < 0 && (seqNo+2*s)%6 == 3 {
+					for _, o := range others {
+						if m.dests[o] && !m.unreach[o] {
+							m.remoteFail = o
+							nodes[o].Log.SetFail(func(*packet.Publish, int) error { return errors.New("injected remote log failure") })
+							m.expectAck = false
+							c.Observe("publishes_with_remote_log_failure", 1)
 							break
 						}
 					}
@@ -298,18 +312,32 @@ func c14Scenario(c *fw.Ctx, s int) {
 	// a subscription removed between two publishes on one topic: the second is no longer written to it
 	var left *c14Sub
 	leftTopic, leftFilter := "", ""
-	for _, su := range subs {
-		for _, f := range su.filters {
-			for _, t := range c14Topics {
-				if left == nil && model.Match(f, t) {
-					only := true
-					for _, g := range su.filters {
-						if g != f && model.Match(g, t) {
-							only = false
+	// preferred: a filter that a later subscriber holds too (the entry that goes away is stored before one that stays)
+	for pass := 0; pass < 2 && left == nil; pass++ {
+		for si, su := range subs {
+			for _, f := range su.filters {
+				for _, t := range c14Topics {
+					if left == nil && model.Match(f, t) {
+						only := true
+						for _, g := range su.filters {
+							if g != f && model.Match(g, t) {
+								only = false
+							}
 						}
-					}
-					if only {
-						left, leftTopic, leftFilter = su, t, f
+						sharedLater := false
+						for _, other := range subs[si+1:] {
+							for _, g := range other.filters {
+								if g == f {
+									sharedLater = true
+								}
+							}
+						}
+						if only && (sharedLater || pass == 1) {
+							left, leftTopic, leftFilter = su, t, f
+							if sharedLater {
+								c.Observe("unsubscribed_filter_shared_with_a_later_subscriber", 1)
+							}
+						}
 					}
 				}
 			}
@@ -362,6 +390,31 @@ func c14Scenario(c *fw.Ctx, s int) {
 				}
 			}
 		}
+		// everybody else still gets the later publishes, one copy per matching filter
+		for si, su := range subs {
+			if su == left {
+				continue
+			}
+			want := 0
+			for _, f := range su.filters {
+				if model.Match(f, leftTopic) {
+					want++
+				}
+			}
+			for _, tag := range leftTags {
+				got := 0
+				for _, p := range su.cl.Publishes() {
+					if string(p.Payload) == tag {
+						got++
+					}
+				}
+				c.Observe("deliveries_compared", 1)
+				if got != want {
+					c.Violation("delivery-after-other-unsubscribed", fmt.Sprintf("scenario %d: after a subscriber on n%d unsubscribed %q, subscriber %d on n%d with filters %v received %d copies of a publish on %q, want %d", s, left.node+1, leftFilter, si, su.node+1, su.filters, got, leftTopic, want),
+						wit(nil, map[string]interface{}{"filter": leftFilter, "topic": leftTopic, "tag": tag, "subscriber": si, "received": got, "expected": want}))
+				}
+			}
+		}
 		c.Observe("unsubscribe_between_same_topic_publishes", 1)
 	}
 	// verdicts
@@ -374,6 +427,9 @@ func c14Scenario(c *fw.Ctx, s int) {
 				want = 1
 			}
 			if i == pn && m.localFails {
+				want = 0 // offered, rejected
+			}
+			if i == m.remoteFail {
 				want = 0 // offered, rejected
 			}
 			c.Observe("append_counts_compared", 1)
@@ -396,14 +452,14 @@ func c14Scenario(c *fw.Ctx, s int) {
 			// whether the publisher is acknowledged after a lost reply is not judged; that the message is
 			// appended once is
 		} else if !m.expectAck && acks > 0 {
-			c.Violation("ack-despite-unreachable-destination", fmt.Sprintf("scenario %d: publish on %q from n%d was acknowledged although destination node(s) %v were unreachable", s, m.topic, pn+1, keys1(m.unreach)), wit(m, nil))
+			c.Violation("ack-despite-unreachable-destination", fmt.Sprintf("scenario %d: publish on %q from n%d was acknowledged although destination node(s) %v were unreachable (local log failing: %v; remote log failing on node: %d)", s, m.topic, pn+1, keys1(m.unreach), m.localFails, m.remoteFail+1), wit(m, nil))
 		}
 		if m.replyLost < 0 && m.expectAck && acks != 1 {
 			c.Violation("ack-count", fmt.Sprintf("scenario %d: publish on %q got %d acknowledgements", s, m.topic, acks), wit(m, nil))
 		}
 		for si, su := range subs {
 			want := 0
-			if (su.node == pn && !m.localFails) || (su.node != pn && !m.unreach[su.node]) {
+			if (su.node == pn && !m.localFails) || (su.node != pn && !m.unreach[su.node] && su.node != m.remoteFail) {
 				for _, f := range su.filters {
 					if model.Match(f, m.topic) {
 						want++
